@@ -565,3 +565,75 @@ def st_query_history(hiN):
 
 
 FACETS.append(Facet('np/query-histories', f_query_history, strategy=lambda t: st_query_history(3), examples={'quick': 500, 'thorough': 20000}, shards={'quick': 2, 'thorough': 8}))
+
+
+# ------------------------------------------------------------------ objects built from arguments do not follow later edits of those arguments
+def f_built_from(case):
+    """constructors / converters that build a new object from their arguments (rotation gate from a Pauli, list from Pauli objects, state from a list,
+    state <-> map conversions, rotation map, embed, products): the argument is edited in place afterwards, the built object must not change.
+    (set_generator / set_forward_map / as_polynomial keep a reference or a view by design and are not in this table.)"""
+    N = case['N']
+    how = case['how']
+    gl, gk = ref.parse(case['gen'])
+    P = B.np_pauli(gl, gk)
+    c = C.dec_clifford(case['rows'])
+    L, K = ref.parse_list(case['stabs'])
+    eg, ek = ref.parse(case['edit'])
+    E = B.np_pauli(eg, ek)
+
+    def edit(obj):
+        obj.rotate_by(E)
+        for name in ('g', 'gs'):
+            if hasattr(obj, name):
+                getattr(obj, name)[...] = 1 - getattr(obj, name)
+        for name in ('ps',):
+            if hasattr(obj, name):
+                getattr(obj, name)[...] = (getattr(obj, name) + 2) % 4
+    if how == 'rotation-gate':
+        built = pc.clifford_rotation_gate(P); args = [P]
+    elif how == 'rotation-gate-qubits':
+        q = np.arange(N)
+        built = pc.clifford_rotation_gate(P, q); args = [P]
+    elif how == 'rotation-map':
+        built = pc.clifford_rotation_map(P); args = [P]
+    elif how == 'paulis':
+        Q = B.np_pauli(eg, (ek + 1) % 4)
+        built = pc.paulis(P, Q); args = [P, Q]
+    elif how == 'stabilizer_state':
+        lst = B.np_list(L, K)
+        built = pc.stabilizer_state(lst); args = [lst]
+    elif how == 'to_state':
+        M = B.np_map(c)
+        built = M.to_state(case['r']); args = [M]
+    elif how == 'to_map':
+        S = B.np_state(c, case['r'])
+        built = S.to_map(); args = [S]
+    elif how == 'embed':
+        small = B.np_map(C.dec_clifford(case['small']))
+        built = pc.identity_map(N + 1).embed(small, B.NP.mask(list(range(len(small.ps) // 2)), N + 1)); args = [small]
+    elif how == 'matmul':
+        Q = B.np_pauli(eg, ek)
+        built = P @ Q; args = [P, Q]
+    elif how == 'polynomial-sum':
+        Q = B.np_pauli(eg, ek)
+        built = P + Q; args = [P, Q]
+    else:
+        raise ValueError(how)
+    before = B.snapshot(built)
+    for a in args:
+        edit(a)
+    check(B.snapshot(built) == before, '%s: the object built from the arguments changed when the arguments were edited in place afterwards' % how, 'built-object-follows-argument')
+    return {'nt': True, 'labels': [how, 'N=%d' % N]}
+
+
+BUILT = ['rotation-gate', 'rotation-gate-qubits', 'rotation-map', 'paulis', 'stabilizer_state', 'to_state', 'to_map', 'embed', 'matmul', 'polynomial-sum']
+
+
+def st_built_from(hiN):
+    def inner(N):
+        return st.fixed_dictionaries({'N': st.just(N), 'how': st.sampled_from(BUILT), 'gen': gen.st_herm(N, nonidentity=True), 'edit': gen.st_herm(N, nonidentity=True),
+                                      'rows': gen.st_clifford_rows(N), 'r': st.integers(0, N), 'stabs': gen.st_independent_stabs(N), 'small': gen.st_clifford_rows(N)})
+    return st.integers(1, hiN).flatmap(inner)
+
+
+FACETS.append(Facet('np/built-from-arguments', f_built_from, strategy=lambda t: st_built_from(4), examples={'quick': 800, 'thorough': 30000}, shards={'quick': 1, 'thorough': 4}))
